@@ -952,3 +952,54 @@ pub fn decorate_scanner(g: &mut Grammar, rng: &mut Rng) {
         g.states[0].allow_unmatched = true;
     }
 }
+
+/// AST-control and declaration annotations (member names, user types, %user_type, %nt_type,
+/// %t_type, title, comment).
+pub fn annotate(g: &mut Grammar, rng: &mut Rng) {
+    if rng.chance(1, 2) {
+        g.title = Some(rng.pick(&["A title", "x", "Test grammar 1.0", "Gr\\\\u{e9}mmar"]).to_string());
+    }
+    if rng.chance(1, 2) {
+        g.comment = Some(rng.pick(&["a comment", "second \\\"quoted\\\" comment", "c"]).to_string());
+    }
+    if rng.chance(1, 3) {
+        g.user_types.push(("MyNum".into(), "crate::types::Number".into()));
+    }
+    if rng.chance(1, 4) {
+        g.user_types.push(("Other".into(), "other_mod::Other".into()));
+    }
+    if rng.chance(1, 4) {
+        g.t_type = Some("crate::types::MyToken".into());
+    }
+    let names = g.nt_names();
+    if rng.chance(1, 3) && names.len() > 1 {
+        let n = rng.pick(&names[1..]).clone();
+        g.nt_types.push((n, "crate::types::NtType".into()));
+    }
+    fn walk(alts: &mut Alts, rng: &mut Rng, has_alias: bool) {
+        for alt in alts.iter_mut() {
+            let mut used = 0;
+            for f in alt.iter_mut() {
+                match f {
+                    Factor::T(_, c) | Factor::N(_, c) => {
+                        if c.clip {
+                            continue;
+                        }
+                        if rng.chance(1, 5) {
+                            used += 1;
+                            c.member = Some(format!("m{used}"));
+                        }
+                        if rng.chance(1, 8) {
+                            c.utype = Some(if has_alias && rng.chance(1, 2) { "MyNum".to_string() } else { "crate::types::Conv".to_string() });
+                        }
+                    }
+                    Factor::Grp(a) | Factor::Opt(a) | Factor::Rep(a) => walk(a, rng, has_alias),
+                }
+            }
+        }
+    }
+    let has_alias = g.user_types.iter().any(|(a, _)| a == "MyNum");
+    for r in g.rules.iter_mut() {
+        walk(&mut r.alts, rng, has_alias);
+    }
+}
